@@ -50,7 +50,7 @@ Inf == 1000
 NoLim == [k \in Classes |-> None]
 RBase == [maxAtt |-> 2, lim |-> NoLim, maxUnk |-> None, D |-> Inf, hasDefault |-> TRUE,
           strat |-> {}, legacy |-> {}, budget |-> None, bW |-> 100000, handler |-> FALSE,
-          abort |-> FALSE, rc |-> TRUE, bsleep |-> FALSE, opname |-> TRUE, hooks |-> FALSE]
+          abort |-> FALSE, rc |-> TRUE, bsleep |-> FALSE, opname |-> TRUE, hooks |-> FALSE, adaptive |-> {}]
 NoThr == [k \in Classes |-> 0]
 BCfg(thr, w, r) == [thr |-> thr, W |-> w, R |-> r, trip |-> {T}, cthr |-> NoThr]
 
